@@ -1,9 +1,299 @@
+/-
+  QV.Driver.Writer — ops of group `writer` (C12, C13).
+
+    w <buflen> <limit> <mode> <fill> <op>;<op>;…;fin[:<machex>]
+        model column: `ok <status>;… <msghex> <machex|->` (statuses of every call, the finished
+        message, the MAC handed to the model for signed TSIG modes); spec column `-` (the
+        specification is evaluated by `waudit` on the implementation's own octets)
+    waudit <buflen> <limit> <mode> <fill> <ops> <statuses> <msghex> <machex|->
+        spec column : `ok` iff the given (implementation's) statuses and octets satisfy the
+                      specification `QV.Spec.Message.checkSession` (independent decoder, abstract
+                      message of the successful calls, size limit, no spurious truncation,
+                      pointer audit); otherwise `viol:<reason>`
+        model column: the same check applied to the model's own run of the session
+
+  Op syntax: see harness/src/g_writer.rs.
+-/
 import QV.Driver.Util
+import QV.Model.Writer
+import QV.Spec.Message
 
 namespace QV.Driver
-open QV
+open QV QV.Writer
 
-/-- ops of group `writer` — stub (not built yet) -/
-def writerHandler : Handler := fun _ _ => none
+/-- hex decoding that does not recurse on the length of the string -/
+def unhexFast (s : String) : Option Bytes :=
+  if s = "-" then some #[] else
+  let u := s.toUTF8
+  if u.size % 2 ≠ 0 then none else
+  let hv (c : UInt8) : Option UInt8 :=
+    if 48 ≤ c ∧ c ≤ 57 then some (c - 48)
+    else if 97 ≤ c ∧ c ≤ 102 then some (c - 87)
+    else if 65 ≤ c ∧ c ≤ 70 then some (c - 55)
+    else none
+  Id.run do
+    let mut out : Bytes := Array.mkEmpty (u.size / 2)
+    for i in [0:u.size / 2] do
+      match hv (u.get! (2 * i)), hv (u.get! (2 * i + 1)) with
+      | some a, some b => out := out.push (a * 16 + b)
+      | _, _ => return none
+    return some out
+
+def hexFast (b : Bytes) : String :=
+  if b.isEmpty then "-" else
+  let d (n : UInt8) : UInt8 := if n < 10 then 48 + n else 87 + n
+  let ba : ByteArray := Id.run do
+    let mut out := ByteArray.emptyWithCapacity (2 * b.size)
+    for x in b do
+      out := (out.push (d (x / 16))).push (d (x % 16))
+    return out
+  (String.fromUTF8? ba).getD ""
+
+def nameArg (s : String) : Option WName := do
+  let b ← unhexFast s
+  let (n, rest) ← WName.parse b.toList
+  if rest.isEmpty then some n else none
+
+def bytesArg (s : String) : Option (List UInt8) := (unhexFast s).map (·.toList)
+
+def modeArg : String → Option CMode
+  | "s" => some .standard
+  | "c" => some .casePreserving
+  | "d" => some .disabled
+  | _ => none
+
+def hintArg (s : String) : Option HintRef :=
+  match s with
+  | "n" => some (.direct .none)
+  | "q" => some (.direct .qname)
+  | "o" => some (.direct .mostRecentOwner)
+  | "r" => some (.direct .mostRecentNameInRdata)
+  | _ =>
+    if s.startsWith "x" then
+      match (s.drop 1).toString.splitOn "." with
+      | [a, b] => do
+        let sl ← a.toNat?
+        let idx ← b.toNat?
+        some (.slot sl idx)
+      | _ => none
+    else none
+
+def hvArg (s : String) : Option (Option Nat) :=
+  if s = "-" then some none else s.toNat?.map some
+
+def algArg : String → Option Alg
+  | "1" => some .hmacSha1
+  | "256" => some .hmacSha256
+  | _ => none
+
+def secArg : String → Option (RrSection × Bool)
+  | "an" => some (.answer, false)
+  | "ns" => some (.authority, false)
+  | "ar" => some (.additional, false)
+  | "ans" => some (.answer, true)
+  | "nss" => some (.authority, true)
+  | "ars" => some (.additional, true)
+  | _ => none
+
+def tsigModeArg (s : String) : Option TsigMode :=
+  match s.splitOn "." with
+  | ["u", n] => do some (.unsigned (← nameArg n))
+  | ["q", a, k] => do some (.request (← algArg a) (← bytesArg k))
+  | ["r", a, k, m] => do some (.response (← algArg a) (← bytesArg m) (← bytesArg k))
+  | ["s", a, k, m] => do some (.subsequent (← algArg a) (← bytesArg m) (← bytesArg k))
+  | _ => none
+
+/-- one op of the session line (`fin` is handled by the caller); `fill` for template buffers -/
+def parseOp (fill : UInt8) (s : String) : Option Op :=
+  match s.splitOn ":" with
+  | ["id", v] => do some (.setId (← v.toNat?))
+  | ["qr", v] => do some (.setQr (← boolArg v))
+  | ["aa", v] => do some (.setAa (← boolArg v))
+  | ["tc", v] => do some (.setTc (← boolArg v))
+  | ["rd", v] => do some (.setRd (← boolArg v))
+  | ["ra", v] => do some (.setRa (← boolArg v))
+  | ["oc", v] => do some (.setOpcode (← v.toNat?))
+  | ["rc", v] => do some (.setRcode (← v.toNat?))
+  | ["xr", v] => do some (.setExtendedRcode (← v.toNat?))
+  | ["lim", v] => do some (.setLimit (← v.toNat?))
+  | ["m", v] => do some (.setMode (← modeArg v))
+  | ["q", n, t, c] => do some (.addQuestion (← nameArg n) (← t.toNat?) (← c.toNat?))
+  | ["tsig", m, kn, ts, fu, oid, er, st] => do
+    some (.setTsig (← tsigModeArg m)
+      { keyName := (← nameArg kn), timeSigned := (← bytesArg ts), fudge := (← fu.toNat?),
+        originalId := (← oid.toNat?), error := (← er.toNat?), serverTime := (← bytesArg st) })
+  | [sec, h, o, t, c, ttl, rd, hv] => do
+    let (sc, isSet) ← secArg sec
+    let hint ← hintArg h
+    let owner ← nameArg o
+    let ty ← t.toNat?
+    let cl ← c.toNat?
+    let tt ← ttl.toNat?
+    let hvv ← hvArg hv
+    if isSet then
+      let rds ← (rd.splitOn ",").mapM bytesArg
+      some (.addRrset sc hint owner ty cl tt rds hvv)
+    else
+      some (.addRr sc hint owner ty cl tt (← bytesArg rd) hvv)
+  | ["clr"] => some .clearRrs
+  | ["edns", p] => do some (.setEdns (← p.toNat?))
+  | ["ut", t] => do some (.updateTimeSigned (← bytesArg t))
+  | ["tpl", n] => do some (.template (← n.toNat?) fill)
+  | ["tpls", n, m] => do some (.templateSubsequent (← n.toNat?) fill (← bytesArg m))
+  | ["g"] => some .getters
+  | _ => none
+
+/-- the ops of a line and the MAC given with `fin` (`none` = line does not end in `fin`) -/
+def parseOps (fill : UInt8) (s : String) : Option (List Op × Option (List UInt8) × Bool) :=
+  let parts := s.splitOn ";"
+  let rec go : List String → List Op → Option (List Op × Option (List UInt8) × Bool)
+    | [], acc => some (acc.reverse, none, false)
+    | ["fin"], acc => some (acc.reverse, none, true)
+    | [p], acc =>
+      if p.startsWith "fin:" then
+        match bytesArg (p.drop 4).toString with
+        | some m => some (acc.reverse, some m, true)
+        | none => none
+      else match parseOp fill p with
+        | some o => some ((o :: acc).reverse, none, false)
+        | none => none
+    | p :: ps, acc => match parseOp fill p with
+      | some o => go ps (o :: acc)
+      | none => none
+  go parts []
+
+def b01 (b : Bool) : String := if b then "1" else "0"
+
+def gettersStr (s : State) : String :=
+  s!"g={getId s}.{b01 (getBit s Gen.QR_BYTE Gen.QR_MASK)}{b01 (getBit s Gen.AA_BYTE Gen.AA_MASK)}" ++
+  s!"{b01 (getBit s Gen.TC_BYTE Gen.TC_MASK)}{b01 (getBit s Gen.RD_BYTE Gen.RD_MASK)}" ++
+  s!"{b01 (getBit s Gen.RA_BYTE Gen.RA_MASK)}.{getOpcode s}.{getRcode s}.{getExtendedRcode s}." ++
+  s!"{s.qdcount}.{s.ancount}.{s.nscount}.{s.arcount}"
+
+def statusStr : Out WriterErr Unit → String
+  | .ok _ => "ok"
+  | .err e => "err:" ++ e.toString
+  | .panic => "panic"
+
+/-- outcome of running a session through the model -/
+structure ModelRun where
+  statuses : List String
+  msg : Option Bytes          -- `none` after a panic
+  mac : Option (List UInt8)
+  /-- finished messages of the prefixes that end before each `clear_rrs` -/
+  pre : List Bytes := []
+
+/-- run the ops one call at a time (the driver needs the intermediate state for `g`) -/
+def runModel (ss : Session) (ops : List Op) (mac : Option (List UInt8)) (fin : Bool) : ModelRun :=
+  let macFn : Tsig → List UInt8 → List UInt8 := fun _ _ => mac.getD []
+  let rec go (ss : Session) : List Op → List String → List Bytes → ModelRun
+    | [], acc, pre =>
+      if fin then
+        match finish ss.w macFn with
+        | .ok (m, mc) => ⟨(("ok" :: acc).reverse), some m, mc, pre.reverse⟩
+        | _ => ⟨(("panic" :: acc).reverse), none, none, pre.reverse⟩
+      else ⟨acc.reverse, none, none, pre.reverse⟩
+    | op :: rest, acc, pre =>
+      match op with
+      | .getters => go ss rest (gettersStr ss.w :: acc) pre
+      | _ =>
+        let pre' := match op with
+          | .clearRrs => (match finish ss.w macFn with
+                          | .ok (m, _) => m :: pre
+                          | _ => #[] :: pre)
+          | _ => pre
+        match step ss op with
+        | (.panic, _) => ⟨(("panic" :: acc).reverse), none, none, pre'.reverse⟩
+        | (r, ss') => go ss' rest (statusStr r :: acc) pre'
+  go ss ops [] []
+
+def ModelRun.show (r : ModelRun) : String :=
+  let st := ";".intercalate r.statuses
+  match r.msg with
+  | some m => s!"ok {st} {hexFast m} {match r.mac with | some mc => hexOfList mc | none => "-"}"
+  | none => s!"ok {st} - -"
+
+/-- parse the common prefix of `w` / `waudit` and run the model -/
+def sessionOf (buflen limit mode fill ops : String) :
+    Option (Nat × Nat × CMode × List Op × Option (Out WriterErr ModelRun)) := do
+  let bl ← buflen.toNat?
+  let li ← limit.toNat?
+  let md ← modeArg mode
+  let fi ← fill.toNat?
+  let fb := UInt8.ofNat fi
+  let (opl, mac, fin) ← parseOps fb ops
+  match Writer.new (Array.replicate bl fb) li with
+  | .ok s0 =>
+    let ss : Session := { w := { s0 with mode := md } }
+    some (bl, li, md, opl, some (.ok (runModel ss opl mac fin)))
+  | .err e => some (bl, li, md, opl, some (.err e))
+  | .panic => some (bl, li, md, opl, some .panic)
+
+/-! ### conversion of model-level ops to the specification's vocabulary -/
+
+def toSpecMode : CMode → Spec.Message.Mode
+  | .standard => .standard
+  | .casePreserving => .casePreserving
+  | .disabled => .disabled
+
+def secNum : RrSection → Nat
+  | .answer => 1
+  | .authority => 2
+  | .additional => 3
+
+def algNum : Alg → Nat
+  | .hmacSha1 => 1
+  | .hmacSha256 => 256
+
+def toSpecOp : Op → Spec.Message.SOp
+  | .setId v => .setId v
+  | .setQr b => .setFlag .qr b
+  | .setAa b => .setFlag .aa b
+  | .setTc b => .setFlag .tc b
+  | .setRd b => .setFlag .rd b
+  | .setRa b => .setFlag .ra b
+  | .setOpcode v => .setOpcode v
+  | .setRcode v => .setRcode v
+  | .setExtendedRcode v => .setExtRcode v
+  | .setLimit v => .setLimit v
+  | .setMode m => .setMode (toSpecMode m)
+  | .addQuestion n t c => .addQuestion n.wire t c
+  | .addRr sec _ o ty cls ttl rd _ => .addRrs (secNum sec) o.wire ty cls ttl [rd]
+  | .addRrset sec _ o ty cls ttl rds _ => .addRrs (secNum sec) o.wire ty cls ttl rds
+  | .clearRrs => .clearRrs
+  | .setEdns p => .setEdns p
+  | .setTsig m rr =>
+    let (sg, alg) : Option Nat × Spec.Message.Name := match m with
+      | .request a _ | .response a _ _ | .subsequent a _ _ =>
+        (some (Spec.Message.algOutputSize (algNum a)), Spec.Message.algWireName (algNum a))
+      | .unsigned n => (none, n.wire)
+    .setTsig sg alg rr.keyName.wire rr.timeSigned rr.fudge rr.originalId rr.error rr.serverTime
+  | .updateTimeSigned t => .updateTime t
+  | .template n _ => .template n
+  | .templateSubsequent n _ _ => .templateSubsequent n
+  | .getters => .getters
+
+def writerHandler : Handler := fun op args =>
+  match op, args with
+  | "w", [buflen, limit, mode, fill, ops] =>
+    match sessionOf buflen limit mode fill ops with
+    | some (_, _, _, _, some (.ok r)) => some (r.show, "-")
+    | some (_, _, _, _, some (.err e)) => some ("err:" ++ e.toString, "-")
+    | some (_, _, _, _, some .panic) => some ("panic", "-")
+    | _ => some bad
+  | "waudit", [buflen, limit, mode, fill, ops, st, msgs, mac] =>
+    match sessionOf buflen limit mode fill ops, (msgs.splitOn "|").mapM unhexFast,
+          (if mac = "-" then some none else (bytesArg mac).map some) with
+    | some (bl, li, md, opl, some (.ok r)), some implMsgs, some macv =>
+      let sops := opl.map toSpecOp
+      let specCol := Spec.Message.checkSession bl li (toSpecMode md) sops (st.splitOn ";") implMsgs macv
+      -- the model's own output (prefix messages before each clear_rrs are the model's too)
+      let modelCol := match r.msg with
+        | some m =>
+          Spec.Message.checkSession bl li (toSpecMode md) sops r.statuses (r.pre ++ [m]) r.mac
+        | none => "viol:model-panic"
+      some (modelCol, specCol)
+    | _, _, _ => some bad
+  | _, _ => none
 
 end QV.Driver
